@@ -50,6 +50,7 @@ func programs() []program {
 		{"cond-error", [][]*S{{block("if (req.http.X == 1) {", undef(1)), undef(2)}}},
 		{"info", [][]*S{{infoerr(1), undef(2), infoerr(3)}}},
 		{"empty-block", [][]*S{{undef(1), block("if (req.http.X == \"1\") {"), undef(2)}}},
+		{"empty-blocks", [][]*S{{undef(1), nocall(2), block("if (req.http.X == \"1\") {", badarg(3)).withElse(), undef(4), block("{"), arity(5)}, {undef(6), block("if (req.http.Y == \"2\") {"), undef(7)}}},
 		{"same-rule-twice", [][]*S{{arity(1), arity(2), badarg(3), arity(4)}}},
 		// statements inside switch cases
 		{"switch", [][]*S{{undef(1), block("switch (req.http.X) {", raw("case \"1\":"), undef(2), nocall(3), raw("break;"), raw("case \"2\":"), badarg(4), raw("fallthrough;"), raw("default:"), undef(5), raw("break;")), undef(6)}}},
@@ -218,6 +219,28 @@ func placements(r *rendered) []Directive {
 	return ds
 }
 
+// rangesIntoEmptyBlocks: a range that starts before a statement and whose end comment is the only thing inside a
+// later, empty block of the same statement list (`if (..) { // falco-ignore-end }`).
+func rangesIntoEmptyBlocks(r *rendered) []Directive {
+	var ds []Directive
+	for _, b := range r.blks {
+		for j := range b {
+			// the block closed by the statement's last brace is empty: the body when there is no else, the else otherwise
+			emptyLast := b[j].Body != nil && ((b[j].Else == nil && len(b[j].Body) == 0) || (b[j].Else != nil && len(b[j].Else) == 0))
+			if b[j].Raw || !emptyLast {
+				continue
+			}
+			for i := 0; i <= j; i++ {
+				if b[i].Raw {
+					continue
+				}
+				ds = append(ds, Directive{Form: "range", From: b[i].start, To: b[j].end, At: b[i].start, EndAt: b[j].end, EndPos: "last-in-block", Target: "range-into-empty-block"})
+			}
+		}
+	}
+	return ds
+}
+
 func hasRaw(b []*S) bool {
 	for _, s := range b {
 		if s.Raw {
@@ -250,7 +273,7 @@ func gen12(tier string, emit func(Case)) {
 		if bl.ParseErr != nil {
 			panic(fmt.Sprintf("C12 base program %s does not parse: %v", p.name, bl.ParseErr))
 		}
-		pls := placements(r)
+		pls := append(placements(r), rangesIntoEmptyBlocks(r)...)
 		variants := func(d Directive) []Directive {
 			var out []Directive
 			in := rulesOf(bl.Diags, d.From, d.To, true)
